@@ -368,6 +368,9 @@ type RunResult struct {
 func (e *Engine) RunHarness(fn *ssa.Function, config map[string]string) (res *RunResult) {
 	t0 := time.Now()
 	e.config = config
+	if e.cfg.TimeoutS > 0 {
+		e.deadline = t0.Add(time.Duration(e.cfg.TimeoutS) * time.Second)
+	}
 	res = &RunResult{Harness: fn.Name(), Config: config, Report: e.rep}
 	defer func() {
 		if r := recover(); r != nil {
